@@ -264,4 +264,16 @@ theorem C23_tree_building_loops_count_every_link :
     VibeProof.Generated.parserTreeLoops ≠ [] ∧
     VibeProof.Generated.parserTreeLoops.all (fun e => e.2 == 1) = true := by decide
 
+
+/-! ### token-consuming loops end at the end of the input -/
+
+/-- every `while` / `loop` of the parser that consumes tokens (table extracted from
+    `parser/**/*.rs` on this run; not empty) is left when the current token is `Eof`: its condition is
+    false there, or its body has a default / explicit exit.  No loop is unclassified.  Replacing the
+    `&&` of a not-Eof test by `||` (a loop that spins at the end of a truncated statement) breaks
+    this theorem. -/
+theorem C23_token_loops_exit_at_eof :
+    VibeProof.Generated.parserTokenLoops ≠ [] ∧
+    VibeProof.Generated.parserTokenLoops.all (fun e => e.2.2 == 1) = true := by decide
+
 end VibeProof.C23
